@@ -230,7 +230,10 @@ def gen_history(rng, prof, probes):
             # the first and the last read around every step hit a random absolute offset: state carried from one call to
             # the next (a remembered segment, a reader kept open) is only visible when the reads do not always start
             # from the oldest offset
-            ops.extend(touch(sh, rng) + probes(sh, rng) + touch(sh, rng))
+            # ... and now and then nothing is read at all, so that the next change meets segments nobody has loaded
+            # since the last reopen (more often right after a reopen)
+            if rng.random() >= (0.3 if kind == 'reopen' else 0.1):
+                ops.extend(touch(sh, rng) + probes(sh, rng) + touch(sh, rng))
     if sh.open and rng.random() < 0.5:
         ops.append('close')
         ops.extend(prof.get('after_close', []))
